@@ -2,13 +2,29 @@ from .common import COMMON_TB
 
 CFG = dict(
         coq="Properties/C11.v",
-        areas=["delta"],
+        areas=["delta", "bcj"],
+        profiles=["release", "checked"],
         level="proof",
-        theorems_expected=["C11_delta_inverse", "C11_delta_matches_reference", "C11_delta_write_partition", "C11_delta_read_partition"],
-        rule="cases = (filter, parameters, data from 10 compressibility classes, write-call partition / inner chunking + destination-size history) "
-             "derived from VERIF_SEED by SplitMix64; each case is run on the implementation (DeltaWriter/DeltaReader, BCJ writers/readers) and on the "
-             "extracted Gallina model and the bytes are compared; the oracle additionally checks decode(encode(x)) = x on the implementation and "
-             "byte equality with liblzma's filter. distinct_nontrivial = distinct command lines whose output is non-empty",
+        theorems_expected=["C11_delta_inverse", "C11_delta_matches_reference", "C11_delta_write_partition", "C11_delta_read_partition",
+                           "C11_bcj_inverse_arm", "C11_bcj_inverse_armthumb", "C11_bcj_inverse_arm64", "C11_bcj_inverse_ppc",
+                           "C11_bcj_inverse_sparc", "C11_bcj_inverse_ia64", "C11_bcj_inverse_x86", "C11_bcj_inverse_riscv", "C11_bcj_inverse_all", "C11_bcj_roundtrip", "C11_bcj_reader_any_sizes", "C11_bcj_reader_zero_read",
+                           "C11_bcj_reader_retry", "C11_bcj_writer_partition_refuted", "C11_bcj_writer_partition_known",
+                           "C11_bcj_checked_add_refuted"],
+        rule="cases = (filter, parameters, data, write-call partition / inner reader script + destination-size history) derived from VERIF_SEED by "
+             "SplitMix64. Delta: data from 10 compressibility classes. BCJ: 8 architectures x {random, slices of the real executables "
+             "/repo/tests/data/wget-*, synthetic code dense in the architecture's branch instructions, instructions straddling offset 4096/8192, "
+             "00/FF/E8 runs, lengths 0..alignment+k} x start offsets {0, small aligned, random u32 aligned, near 2^31, near 2^32, above 2^32 up to "
+             "usize::MAX, unaligned} x write partitions {one, aligned, small, pow2+-1, random, with empty, bytes; 1 in 10 into a sink taking <= k bytes} / "
+             "inner-reader scripts {one chunk, small, pow2, random, bytes, 4096+-4; 3 in 10 with Interrupted failures, 1 in 10 with a hard failure} x "
+             "read-size cycles {4096, 1, with zeros, 4095/1/4097, 100000, tiny, random}. Every case is run on the implementation (release profile AND "
+             "the profile 'checked' = release + overflow checks + debug assertions) and on the extracted Gallina model; the observations (bytes / error "
+             "kind / panic) must be identical strings. The oracle evaluates the property on the implementation: decode(encode(x)) = x through "
+             "BCJWriter -> BCJReader for aligned start offsets, byte equality of the filtered/unfiltered bytes with liblzma's filters (start offset as "
+             "4-byte LE property, when it fits), sink receives every byte, reader output independent of chunking, read sizes and transient inner "
+             "failures. distinct_nontrivial = distinct command lines whose output is non-empty",
         trusted_base=COMMON_TB + ["liblzma 5.x (liblzma-sys 0.4.8, static) as the reference filter implementation in the oracle"],
-        assumptions=["the inner reader/writer of the filter behaves as a perfect source/sink (fault behaviour is C05's business)"],
+        assumptions=["Delta: the inner reader/writer behaves as a perfect source/sink. BCJ: the inner reader follows a script of non-empty chunks and "
+                     "failing calls (any error kind), Ok(0) only at its end; the inner writer takes every byte (write_all in BCJWriter makes its "
+                     "chunking irrelevant, exercised by the bcj_enc_short cases); faults beyond that are C05's business",
+                     "usize = 64 bit (the harness platform); the model's position arithmetic wraps at 2^64"],
     )
